@@ -97,6 +97,32 @@ def forwarding(ctx, g: FuncInfo, target: FuncInfo, remap_ok: tuple = ()) -> list
             else:
                 problems.append(f"parameter `{p}` is forwarded as `{ast.unparse(passed)}`")
         # positional mismatch: p passed at another parameter's position
+    # the same defaults: calling the wrapper without an argument means what calling the target
+    # without it means
+    for p in params:
+        if p in tpos:
+            dg, dt = g.param_default(p), target.param_default(p)
+            tg_, tt_ = (ast.unparse(dg) if dg is not None else None), (ast.unparse(dt) if dt is not None else None)
+            if tg_ != tt_ and not (tg_ == "..." or tt_ == "..."):
+                problems.append(f"parameter `{p}` defaults to {tg_} here but to {tt_} in {target.qualname}")
+    # the result of the target is the result of the forwarder
+    returns_value = any(isinstance(r, ast.Return) and r.value is not None and not (isinstance(r.value, ast.Constant) and r.value.value is None) for r in walk_own(target.node))
+    # (only where the properties speak about the result: the lookups and the task starters)
+    if returns_value and target.name in ("get_resource", "get_resource_nowait", "get_resources", "start_service_task", "start_background_task_factory"):
+        normal = lambda s_, d_, lab: lab not in ("e", "h")  # noqa: E731
+        if not cfg.all_paths_pass(cfg.entry, [cfg.exit], [n.id for n, _c in calls], edge_ok=lambda s_, d_, lab: lab != "e" or True):
+            problems.append(f"some path returns without asking {target.qualname}")
+        for n, call in calls:
+            if n.kind == "stmt" and isinstance(n.ast, ast.Return) and n.ast.value is not None and any(x is call for x in ast.walk(n.ast.value)):
+                continue
+            var = None
+            if n.kind == "stmt" and isinstance(n.ast, (ast.Assign, ast.AnnAssign)) and getattr(n.ast, "value", None) is not None and any(x is call for x in ast.walk(n.ast.value)):
+                tg0 = (n.ast.targets if isinstance(n.ast, ast.Assign) else [n.ast.target])[0]
+                var = tg0.id if isinstance(tg0, ast.Name) else None
+            rets = [cfg.nodes[i] for i in cfg.reach([n.id], edge_ok=normal) if cfg.nodes[i].kind == "stmt" and isinstance(cfg.nodes[i].ast, ast.Return)]
+            falls_off = cfg.exit in cfg.reach([n.id], avoid=[r.id for r in rets], edge_ok=normal)
+            if var is None or falls_off or not rets or not all(isinstance(r.ast.value, ast.Name) and r.ast.value.id == var for r in rets):
+                problems.append(f"the result of {target.qualname} is not what is returned")
     # arguments that are not parameters (constants replacing a parameter)
     return sorted(set(problems))
 
@@ -186,9 +212,30 @@ def run(ctx) -> None:
     for n, m in a.func_mutations(an.ctx_method("__aenter__")):
         if m.kind == "call:add":
             child_attr = m.path[-1]
+    def _helpers_of(f0, depth=2):
+        """Context methods a lookup hands part of its work to (the lookups themselves and the
+        lifecycle guard excluded)."""
+        out, work = [], [(f0, depth)]
+        seen = {id(f0)}
+        while work:
+            g, d = work.pop()
+            for _call, c in a.func_calls(g):
+                if c.kind == "func" and id(c.func) not in seen and c.func.owner_class is not None and ctx.p.is_subclass(c.func.owner_class, an.Context.name) and c.func is not an.guard and c.func.name not in ("get_resource_nowait", "get_resource", "get_resources", "add_resource", "add_resource_factory", "add_teardown_callback"):
+                    seen.add(id(c.func))
+                    out.append(c.func)
+                    if d > 1:
+                        work.append((c.func, d - 1))
+        return out
+
     for name in ("get_resource_nowait", "get_resource", "get_resources"):
         f = an.ctx_method(name)
         reads = 0
+        for h in _helpers_of(f):
+            for x in walk_own(h.node):
+                if isinstance(x, ast.Attribute) and x.attr in (parent_attr, child_attr) and x.attr is not None:
+                    rep.violate("C02.R3", h, x, f"{name} goes through {h.name}(), which walks to `{ast.unparse(x)}`: resources / factories of other contexts become visible (or get generated there) at lookup time")
+                if isinstance(x, ast.Attribute) and x.attr in tables and dotted(x.value) != "self":
+                    rep.violate("C02.R3", h, x, f"{name} goes through {h.name}(), which reads `{ast.unparse(x)}`: the lookup consults another context's table")
         for x in walk_own(f.node):
             if isinstance(x, ast.Attribute) and x.attr in tables:
                 reads += 1
@@ -199,6 +246,27 @@ def run(ctx) -> None:
                 rep.violate("C02.R3", f, x, f"{name} walks to `{ast.unparse(x)}`: resources of other contexts become visible at lookup time")
         if reads == 0:
             rep.unrecognised("C02.R3", f, f.node, f"{name} reads neither table")
+    # the parent's tables are read while the child is constructed - and never again
+    # (a later read anywhere - entry, lookup, teardown - lets what was added to the parent
+    # after the child's creation leak into the child)
+    late = 0
+    mutators = {id(f_) for t_ in tables for f_, _n, m_, _r in table_mutations(a, t_) if m_.kind != "rebind" or True}
+    for f in ctx.p.all_functions():
+        if f in an.init_closure or f.is_lambda:
+            continue
+        # only where the function also writes a table: that is how foreign entries get in
+        # (reading another context's table for a repr / a count is harmless; lookups are R3)
+        if id(f) not in mutators:
+            continue
+        for x in walk_own(f.node):
+            if isinstance(x, ast.Attribute) and x.attr in tables and isinstance(x.ctx, ast.Load):
+                base = dotted(x.value) or "?"
+                own = base in ("self", f"self.{an.wrapped_attr}") or any(p[:-1] in (("self",), ("self", an.wrapped_attr)) for p in expand_alias(f, (base, x.attr)) if len(p) >= 2)
+                if not own and (parent_attr in base.split(".") or base.split(".")[0] not in ("self",)):
+                    late += 1
+                    rep.violate("C02.R1", f, x, f"`{ast.unparse(x)}` is read in {f.qualname}, after construction: the child no longer sees exactly what was visible in its parent when it was created (later additions to the parent leak in)")
+    if not late:
+        rep.hold("C02.R1", init, init.node, "no context's tables are read through another context outside the constructor", nontrivial=False)
     # get_resources must select by membership of the requested type in the container's types
     gr = an.ctx_method("get_resources")
     comps = [x for x in walk_own(gr.node) if isinstance(x, (ast.DictComp, ast.ListComp, ast.GeneratorExp, ast.SetComp))]
@@ -209,6 +277,12 @@ def run(ctx) -> None:
                 if isinstance(cond, ast.Compare) and isinstance(cond.ops[0], ast.In) and isinstance(cond.left, ast.Name) and cond.left.id == gr.params[1]:
                     ok = True
     rep.check("C02.R3", ok or not comps, gr, gr.node, "get_resources selects containers by the requested type", "get_resources does not filter by the requested type")
+
+    # every lookup path agrees on what is visible: the sync API never answers "not there" for
+    # a resource the async API produces (shared with C04.R3)
+    from .common import include_fn
+
+    include_fn(ctx, c04.sync_async_agreement, "C02.R3", only=("C04.R3",))
 
     # ------------------------------------------------------------------ R4 one API, one implementation
     mod = an.Context.module
@@ -239,8 +313,9 @@ def run(ctx) -> None:
     rep.floor("C02.R4", n_fw, 16)
     # the wrapped context is the real (non-component) context current at construction
     cinit = an.ComponentContext.methods["__init__"]
-    unwrap = [t for t in walk_own(cinit.node) if isinstance(t, ast.If) and "isinstance" in ast.unparse(t.test) and an.ComponentContext.name in ast.unparse(t.test)]
-    rep.check("C02.R4", bool(unwrap), cinit, unwrap[0] if unwrap else cinit.node, "component contexts are unwrapped when choosing the context to delegate to", "a ComponentContext may delegate to another ComponentContext (which exits sooner)")
+    unwrap = [t for t in walk_own(cinit.node) if isinstance(t, (ast.If, ast.While)) and "isinstance" in ast.unparse(t.test) and an.ComponentContext.name in ast.unparse(t.test)]
+    unwraps_to_wrapped = any(isinstance(x, ast.Assign) and isinstance(x.value, ast.Attribute) and x.value.attr == an.wrapped_attr for t in unwrap for b in t.body for x in ast.walk(b)) or any(isinstance(t, ast.While) and "isinstance" in ast.unparse(t.test) and an.ComponentContext.name in ast.unparse(t.test) and any(isinstance(x, ast.Assign) and isinstance(x.value, ast.Attribute) and x.value.attr == an.wrapped_attr for b in t.body for x in ast.walk(b)) for t in walk_own(cinit.node))
+    rep.check("C02.R4", bool(unwrap) and unwraps_to_wrapped, cinit, unwrap[0] if unwrap else cinit.node, "component contexts are unwrapped when choosing the context to delegate to", "a ComponentContext may delegate to another ComponentContext (which exits sooner)")
     # every resource-related Context method is overridden by ComponentContext (no table of its own is used)
     for name in ("add_resource", "add_resource_factory", "get_resource", "get_resource_nowait", "get_resources", "add_teardown_callback", "start_service_task", "start_background_task_factory"):
         rep.check("C02.R4", name in an.ComponentContext.methods, an.ComponentContext.methods.get(name), None, f"ComponentContext overrides {name}", f"ComponentContext does not override {name}: the call lands on the component context's own (empty, short-lived) tables")
